@@ -8,4 +8,5 @@ let table : (string * (z list list list -> z list list)) list = [
   ("pio_spec", e_pio_spec);
   ("pio_oracle", e_pio_oracle);
   ("xor_model", e_xor_model);
+  ("c18_model", e_c18_model);
 ]
